@@ -3,12 +3,12 @@ CONSTANTS
   Ctors <- BothCtors
   NameTokens <- TokQ
   MaxName = 4
-  FixedNames <- NamesForFs
-  FmtTokens <- FTokQ
+  FixedNames <- NamesForFsFew
+  FmtTokens <- FTokT
   MaxFmt = 3
   Heads <- HeadEq
-  OptParts <- OptsFew
-  MaxOpts = 1
+  OptParts <- NoneSet
+  MaxOpts = 0
   AllowNoFs = TRUE
   Setters <- NoneSet
   MaxSetters = 0
